@@ -1,6 +1,7 @@
 package checks
 
 import (
+	"bytes"
 	"encoding/json"
 	"fmt"
 	"strings"
@@ -461,6 +462,41 @@ func execC14Bubble(r *kernel.Run, s C14Spec) {
 		attempt(m.ID, "tamper-field", m.Path, m.Apply(tree))
 	}
 	attempt("replay-other-session-message", "replay", kernel.Path{"UserChallengeInput"}, b.wire3)
+	// ---- faults on the FIRST user message: a user who does not commit (hash absent, empty, cut short or
+	// altered) must not get an answer to any second message; armed state is rebuilt from the altered message
+	{
+		t1 := kernel.MustDecode(a.wire1)
+		for _, m := range kernel.Mutations(t1, kernel.MutOpts{Values: true, Structural: true}) {
+			id := "first-message:" + m.ID
+			if !wanted(s.OnlyFault, id) {
+				continue
+			}
+			altered := m.Apply(t1)
+			var q1, q0 gabi.KeyshareCommitmentRequest
+			if json.Unmarshal(altered, &q1) != nil || json.Unmarshal(a.wire1, &q0) != nil {
+				r.Probe("decode-error")
+				continue
+			}
+			if bytes.Equal(mustJSON(q1), mustJSON(q0)) {
+				continue // nothing the server reads was changed
+			}
+			r.Eval(1)
+			r.Fault("tamper-field:first-message")
+			server.randomizer, server.commReq = armedRnd, &q1
+			var serr error
+			pmsg, frame := guardFrame(func() { _, serr = server.round2(a.wire3) })
+			d := map[string]any{"fault": id, "path": m.Path.Generic()}
+			if pmsg != "" {
+				r.Violate("C14:panic:"+frame, d, "%s: keyshare server panics: %s", id, pmsg)
+				continue
+			}
+			if serr == nil {
+				r.Violate("C14:response-released-without-matching-commitment", d, "%s: the server answered the second message although the first message committed to something else (or to nothing)", id)
+			} else {
+				r.Probe("server-refused")
+			}
+		}
+	}
 	// unknown key id
 	if wanted(s.OnlyFault, "unknown-key-id") && anyPart {
 		r.Fault("unknown-key")
